@@ -104,8 +104,11 @@ func checkCase(c Case) error {
 	}
 	mainProxy := pong.MakePingPong(sess, mainProxyRaw)
 	raw, err := netkit.Dial(env.Addr)
-	if err != nil || !raw.Authenticate("u", "t", bound) {
+	if err != nil {
 		return vt.Violationf("C16:setup", "raw client: %v", err)
+	}
+	if !raw.Authenticate("u", "t", bound) {
+		return vt.Violationf("C16:authenticate-hangs", "a fresh connection got no answer to authenticate within %v\n%s", bound, vt.BlockedInLibrary())
 	}
 	defer raw.Close()
 
@@ -147,7 +150,7 @@ func checkCase(c Case) error {
 		if viaRaw {
 			f, ok := raw.CallWait(svc.ServiceID(), o.id, 100, netkit.StringPayload(tag), bound)
 			if !ok {
-				return vt.Violationf("C16:call-hangs", "step %d: raw call to object %d (live=%v) got no answer within %v", step, o.id, o.live, bound)
+				return vt.Violationf("C16:call-hangs", "step %d: raw call to object %d (live=%v) got no answer within %v\n%s", step, o.id, o.live, bound, vt.BlockedInLibrary())
 			}
 			if f.Type == netkit.Reply {
 				res, _ = netkit.DecodeString(f.Payload)
@@ -160,7 +163,7 @@ func checkCase(c Case) error {
 			select {
 			case <-done:
 			case <-time.After(bound):
-				return vt.Violationf("C16:call-hangs", "step %d: call to object %d (live=%v) did not return within %v", step, o.id, o.live, bound)
+				return vt.Violationf("C16:call-hangs", "step %d: call to object %d (live=%v) did not return within %v\n%s", step, o.id, o.live, bound, vt.BlockedInLibrary())
 			}
 		}
 		after := env.Journal.Count(o.name, "", "")
